@@ -27,12 +27,12 @@ var c13Engines = []string{"memkv", "tikv", "badger", "tikv", "memkv+m", "tikv"}
 func init() {
 	Registry["C13"] = &Prop{
 		Plan: func(tier string) Plan {
-			return Plan{Level: "exploration", NCases: pick(tier, 240, 4000), Batch: 4, CaseTimeout: 120,
+			return Plan{Level: "exploration", NCases: pick(tier, 240, 40000), Batch: 4, CaseTimeout: 120,
 				Rule: "one case = one PRNG sequential history (C03 generator) on an engine whose partitioning is controlled: memkv/Badger behind a GetPartitions override returning 1-6 shuffled pieces whose borders are stored index/version records or well-formed internal keys of arbitrary (raw key, revision); the TiKV mock pre-split into regions at such keys. " +
 					"For 4-8 read revisions: unlimited List, Count, ListByStream over the whole interval, GetPartitions + one ListByStream per advertised piece (concatenated), and the etcd negative-revision watch are compared with the reference snapshot; every data batch must name the read revision and each stream must end with exactly one terminator, last. " +
 					"non-trivial = >=1 border strictly inside one key's versions (between its index record and its newest version) and >=2 pieces; distinct by (engine, border vector, history outcome vector)",
 				Assumptions: []string{"TiKV regions are those of the in-process mock cluster, pre-split before the history runs"},
-				MinConcl:    pick(tier, 200, 3400)}
+				MinConcl:    pick(tier, 200, 34000)}
 		},
 		Name: func(c *harness.Case) string { return "parts-" + c13Engines[c.Index%len(c13Engines)] },
 		Run:  runC13,
